@@ -8,6 +8,8 @@ a named group differs from its group number.  Rules:
 R-GROUPID  every reported position is that very group's span (index-kind agreement)
 R-FILTER   include_empty=False drops exactly the captures equal to '' (None is kept)
 R-RELPOS   relative_to_match shifts both ends by the match start; (-1,-1) stays (-1,-1)
+R-SOURCE   `re` is applied to exactly the text the caller supplied (witness: CR LF, controls, non-characters, the
+           source's own short string constants), so positions index the caller's string
 R-SHAPE    one container per match, all groups in order / all named groups under their names
 """
 from __future__ import annotations
@@ -145,6 +147,9 @@ def run(ctx, model):
                                    "R-RELPOS": "relative_to_match does not shift both ends by the match start (or touches (-1,-1))",
                                    "R-SHAPE": "the yielded container does not list every (named) group in order"}[r],
                                   f.node.lineno, inp=inp, detail=f"match#{i} {m!r}: got {g!r}, required {want!r}")
+    # ---------------- R-SOURCE: captures and positions refer to the caller's text, so that text is what re must see
+    MM.subject_rule(ctx, model, "R-SOURCE", sorted(n for n in MM.matching_methods(model) if "capture" in n or n.endswith("_and_pos")))
+    ctx.floor("R-SOURCE", ctx.rule_counts.get("R-SOURCE", 0), 16, "methods reporting captures / positions")
     ctx.floor("R-GROUPID", ctx.rule_counts.get("R-GROUPID", 0), 40, "position reports")
     ctx.floor("R-FILTER", ctx.rule_counts.get("R-FILTER", 0), 40, "filter evaluations")
 
